@@ -410,3 +410,102 @@ Definition run_memfs (c : tr) : tr :=
   | Some h => let (root, outs) := run_trace empty_fs h in L [elist e_outcome outs; e_node root]
   | None => ebad
   end.
+
+(* --- specification vocabulary (used by the theorems of Properties/C05.v) ------------------------- *)
+(* the text stored at a component path, if a file is there *)
+Definition file_at (root : node) (cs : list str) : option str :=
+  match locate root cs with LFound (NFile c) => Some c | _ => None end.
+
+(* Python dicts have distinct keys *)
+Fixpoint names_nodup (es : list (str * node)) : bool :=
+  match es with
+  | [] => true
+  | (k, _) :: r => match alookup k r with None => true | Some _ => false end && names_nodup r
+  end.
+Fixpoint wf_node (n : node) : bool :=
+  match n with
+  | NFile _ => true
+  | NDir es => names_nodup es && forallb (fun kn => wf_node (snd kn)) es
+  end.
+
+(* the abstract file system: component path -> text, updated by the operations that reported success *)
+Definition amap := list str -> option str.
+Definition aupd (a : amap) (cs : list str) (v : option str) : amap :=
+  fun cs' => if strs_eqb cs' cs then v else a cs'.
+Definition slashed (p : str) : bool := match rsplit p with Some (_, []) => true | _ => false end.
+(* what a successful write leaves in the file *)
+Definition new_content (p : str) (m : mode) (c : str) (old : option str) : str :=
+  match old with
+  | None => c
+  | Some o => if m_w m && negb (slashed p) then c else if m_a m then o ++ c else overwrite o c
+  end.
+(* rm removes the entry path[rpos+1:] of the directory path[:rpos] *)
+Definition rm_target (p : str) : list str :=
+  match rsplit p with Some (h, name) => components h ++ [name] | None => [] end.
+Definition astep (a : amap) (o : op) (out : outcome) : amap :=
+  match out with
+  | RUnit =>
+      match o with
+      | OSave p c => aupd a (components p) (Some (new_content p w_mode c (a (components p))))
+      | OWrite p m c => aupd a (components p) (Some (new_content p m c (a (components p))))
+      | OSeqWrite p m rs => aupd a (components p) (Some (new_content p m (line_bytes rs) (a (components p))))
+      | ORm p => aupd a (rm_target p) None
+      | _ => a
+      end
+  | _ => a
+  end.
+Fixpoint arun (a : amap) (h : list op) (outs : list outcome) : amap :=
+  match h, outs with
+  | o :: h', out :: outs' => arun (astep a o out) h' outs'
+  | _, _ => a
+  end.
+
+(* the trace of a history: every operation with the outcome it reported *)
+Definition trace_of (root : node) (h : list op) : list (op * outcome) := combine h (snd (run_trace root h)).
+Definition afold (a : amap) (t : list (op * outcome)) : amap :=
+  fold_left (fun a x => astep a (fst x) (snd x)) t a.
+
+(* the operations that can change the text at component path cs *)
+Definition touches (o : op) (cs : list str) : Prop :=
+  match o with
+  | OSave p _ | OWrite p _ _ | OSeqWrite p _ _ => components p = cs
+  | ORm p => rm_target p = cs
+  | _ => False
+  end.
+
+(* the records a line sequence at cs holds, read off the trace *)
+Inductive tracked : Type := TAbsent | TRecords (rs : list str) | TOther.
+Definition track_step (cs : list str) (t : tracked) (x : op * outcome) : tracked :=
+  match snd x with
+  | RUnit =>
+      match fst x with
+      | OSeqWrite p m rs =>
+          if strs_eqb (components p) cs then
+            match t with
+            | TAbsent => TRecords rs
+            | TRecords r0 => if m_w m && negb (slashed p) then TRecords rs
+                             else if m_a m then TRecords (r0 ++ rs) else TOther
+            | TOther => if m_w m && negb (slashed p) then TRecords rs else TOther
+            end
+          else t
+      | OSave p _ | OWrite p _ _ => if strs_eqb (components p) cs then TOther else t
+      | ORm p => if strs_eqb (rm_target p) cs then TAbsent else t
+      | _ => t
+      end
+  | _ => t
+  end.
+Definition track (cs : list str) (t : list (op * outcome)) : tracked := fold_left (track_step cs) t TAbsent.
+Definition no_nl (r : str) : bool := negb (existsb (N.eqb c_nl) r).
+
+(* pg.save / pg.load of values: the serializer (to_json_str) and deserializer (from_json_str) are parameters *)
+Section SaveLoad.
+  Variable V : Type.
+  Variable ser : V -> str.
+  Variable deser : str -> result V.
+  Definition pg_save_op (p : str) (v : V) : op := OSave p (ser v).
+  Definition pg_load (root : node) (p : str) : fres (result V) :=
+    match read_file root p with
+    | FOk t => FOk (deser t)
+    | FErr e => FErr e
+    end.
+End SaveLoad.
